@@ -220,6 +220,33 @@ def sources(tier: str, shard: int = 0, of: int = 1) -> Iterator[Tuple[str, str]]
                     r = emit("d3", b, kids)
                     if r:
                         yield r
+    # wide nodes: every list-valued field with 3..5 entries, the interesting child at every index
+    esc_trees = []
+    for e in ESCAPES:
+        try:
+            esc_trees.append(ast.parse(e, mode="eval").body)
+        except SyntaxError:
+            pass
+    wide_hosts = [
+        ("BoolOp:And", lambda kids: ast.BoolOp(op=ast.And(), values=kids)),
+        ("BoolOp:Or", lambda kids: ast.BoolOp(op=ast.Or(), values=kids)),
+        ("Call:min:args", lambda kids: ast.Call(func=N("min"), args=kids, keywords=[])),
+        ("Call:round:kwargs", lambda kids: ast.Call(func=N("round"), args=[K(1)], keywords=[ast.keyword(arg=f"k{i}", value=k) for i, k in enumerate(kids)])),
+        ("Call:abs:kwstars", lambda kids: ast.Call(func=N("abs"), args=[], keywords=[ast.keyword(arg=None, value=k) for k in kids])),
+        ("Compare:chain", lambda kids: ast.Compare(left=kids[0], ops=[ast.Lt() for _ in kids[1:]], comparators=kids[1:])),
+        ("Tuple", lambda kids: ast.Tuple(elts=kids, ctx=ast.Load())),
+        ("IfExp:nested", lambda kids: ast.IfExp(test=kids[0], body=kids[1], orelse=ast.IfExp(test=kids[2], body=kids[-1], orelse=kids[-2]))),
+    ]
+    for hname, hb in wide_hosts:
+        for width in (3, 4, 5):
+            for pos in range(width):
+                for child in L + r1c + esc_trees:
+                    if mine():
+                        kids = [copy.deepcopy(benign[i % 3]) for i in range(width)]
+                        kids[pos] = copy.deepcopy(child)
+                        s_ = unparse(hb(kids))
+                        if s_ is not None:
+                            yield ("wide", s_)
     # escape corpus: as is, and embedded at every slot of every whitelisted constructor (two levels)
     for e in ESCAPES:
         if mine():
@@ -595,4 +622,4 @@ def shrink_candidates(case: Dict[str, Any]) -> Iterator[Dict[str, Any]]:
 
 
 def label_requirements(tier: str) -> Dict[str, Any]:
-    return {"fuzz": 15000, "evaluated": 2000, "history_recompile": 10000, "verdict:unsafe": 0.2, "verdict:safe": 0.01, "d3": 1000, "esc2": 1000}
+    return {"fuzz": 15000, "wide": 3000, "evaluated": 2000, "history_recompile": 10000, "verdict:unsafe": 0.2, "verdict:safe": 0.01, "d3": 1000, "esc2": 1000}
